@@ -843,6 +843,8 @@ class BlockingOracle(Oracle):
         if not merge:
             return merged == shape
         sq = [s for s in shape if s != 1] or [1]
+        if 1 in merged and merged != [1]:
+            return False  # merging drops size-1 dimensions (only an all-unit shape merges to a single 1)
         # merged must be a fusion of adjacent entries of sq; every fused run (len >= 2) has product <= max_dim
         i = 0
         for m in merged:
